@@ -53,7 +53,7 @@ func readResponsesFor(out []byte, methods []string) ([]c16Resp, []byte, error) {
 func init() {
 	Register(&Prop{
 		ID: "C16", NoShrink: true,
-		Rule: "te: ServeConn pipelines where some handlers call TimeoutError (some after asking for a hijack, with or without HijackSetNoResponse) and keep mutating the ctx (GET/HEAD/POST, HTTP/1.0 keep-alive and 1.1) followed by ordinary requests; " +
+		Rule: "te: ServeConn pipelines where some handlers call TimeoutError (some after asking for a hijack, with or without HijackSetNoResponse; some leaving a streamed 9000-byte request body unread, after which nothing more may be served) and keep mutating the ctx (GET/HEAD/POST, HTTP/1.0 keep-alive and 1.1) followed by ordinary requests; " +
 			"wrap: Serve + TimeoutHandler(120ms) with inner handlers parked on gates past the deadline that afterwards rewrite status, headers and body, released by the NEXT request's handler so that late writes race with the next response; " +
 			"conc: Concurrency N with N+1 connections holding slow wrapped handlers; wrapc: Concurrency 1..2, one connection, handlers that outlive their timeout and keep running while later requests arrive (status sequence = the Lean semaphore model, peak running <= N); monitor: timed-out requests get exactly the timeout status/message (no body for HEAD), no late write on the wire, later requests answered normally, " +
 			"at most N wrapped handlers inside, excess get 429; non-trivial = at least one timed-out request followed by another request; distinct = distinct input",
@@ -67,7 +67,12 @@ func init() {
 				var methods []string
 				var want []string
 				nt := false
+				streamMode := false
+				stopped := false // a request after which the connection is legitimately closed was seen
 				for i, tk := range toks {
+					if stopped {
+						break
+					}
 					f := strings.Split(tk, "|")
 					m := map[string]string{"G": "GET", "H": "HEAD", "P": "POST"}[f[0]]
 					methods = append(methods, m)
@@ -93,7 +98,17 @@ func init() {
 					if m == "POST" {
 						cl = "Content-Length: 0\r\n"
 					}
-					fmt.Fprintf(&stream, "%s /r%d?%s %s\r\nHost: h\r\n%s%s\r\n", m, i, q, ver, extra, cl)
+					unreadBody := ""
+					if len(f) > 3 && f[3] == "u" && m == "POST" {
+						// StreamRequestBody: the handler times out (or not) without reading its 9000-byte body: the response is
+						// sent, the connection must be closed, nothing of the body may be dispatched
+						streamMode = true
+						cl = "Content-Length: 9000\r\n"
+						unreadBody = strings.Repeat("GET /smuggled HTTP/1.1\r\nHost: s\r\n\r\n", 300)[:9000]
+						q += "&rb=none"
+						stopped = true
+					}
+					fmt.Fprintf(&stream, "%s /r%d?%s %s\r\nHost: h\r\n%s%s\r\n%s", m, i, q, ver, extra, cl, unreadBody)
 					exp := fmt.Sprintf("200:own%d", i)
 					if f[2] == "1" {
 						exp = "408:timed out!"
@@ -101,12 +116,15 @@ func init() {
 					if m == "HEAD" {
 						exp = exp[:4]
 					}
-					if f[1] == "0" {
+					if f[1] == "0" && !stopped {
 						exp += ":ka"
 					}
 					want = append(want, exp)
 				}
-				res := runConn(connCfg{}, [][]byte{stream.Bytes()})
+				if stopped {
+					stream.WriteString("GET /after HTTP/1.1\r\nHost: h\r\n\r\n") // must never be answered
+				}
+				res := runConn(connCfg{Stream: streamMode}, [][]byte{stream.Bytes()})
 				rs, rest, perr := readResponsesFor(res.Trace.Out, methods)
 				var got []string
 				lateSeen := false
@@ -408,6 +426,8 @@ func init() {
 					tk := fmt.Sprintf("%s|%d|%d", r.Pick([]string{"G", "H", "P"}), r.Intn(4)/3*0+b2iC16(r.Chance(75)), b2iC16(r.Chance(40)))
 					if strings.HasSuffix(tk, "|1") && r.Chance(25) {
 						tk += "|" + r.Pick([]string{"h", "n"})
+					} else if strings.HasPrefix(tk, "P|") && r.Chance(20) {
+						tk += "|u"
 					}
 					toks = append(toks, tk)
 				}
